@@ -19,10 +19,6 @@ import (
 // (valid) block is put into the errored-blocks cache.
 const knownC07Prefix = "C07-valid-prefix-under-invalid-orphan-not-adopted"
 
-// class id of the candidate finding: a block with header number 0 whose parent is the best block is connected as the
-// new best block at height 0 (ChainDB.isMainChain lets number 0 through; nothing checks number = parent's + 1).
-const knownC05Zero = "C05-block-number-zero-child-of-best"
-
 type scenario struct {
 	name      string
 	blocks    []*mblock      // universe, genesis excluded
@@ -92,10 +88,6 @@ func (s *session) replay() interface{} {
 func (s *session) fail(clause, what, known string) {
 	if s.failed[clause] {
 		return
-	}
-	if s.forged0 && known == "" && (strings.HasPrefix(clause, "clause1") || strings.HasPrefix(clause, "clause2") || clause == "valid-child-of-best" || clause == "invalid-block-on-main-chain") {
-		known = knownC05Zero
-		what += " [after a block with header number 0 whose parent was the best block was connected as best block]"
 	}
 	s.failed[clause] = true
 	s.e.run.Count("oracle:" + clause + ":violated")
@@ -191,15 +183,12 @@ func (e *env) runScenario(sc *scenario) {
 		if _, pan := vh.Guard(func() string { s.oracleC05(after); return "" }); pan {
 			s.fail("query", "the consistency oracle's queries panicked", "")
 		}
-		if s.forged0 && s.e.prop == "C07" {
-			continue // the chain index is corrupt from here on; that is C05's finding, fork choice is not judged on it
-		}
 		if s.e.prop == "C07" {
 			s.oracleC07(before, after, b, cls)
 		}
 		s.oracleArrival(before, after, b, cls)
 	}
-	if s.e.prop == "C07" && !s.forged0 {
+	if s.e.prop == "C07" {
 		s.referenceCheck("end of session")
 	}
 }
